@@ -309,7 +309,15 @@ func runC13(c *Ctx) {
 	}
 	for _, nm := range []string{pkOCSP + ".CreateRequest", pkOCSP + ".CreateResponse"} {
 		f := w.Fn(nm)
-		ok := f != nil && (len(callsIn(f, pkOCSP+".getOIDFromHashAlgorithm")) >= 1 || usesGlobal(f, "hashOIDs"))
+		ok := false
+		if f != nil {
+			// in the function or in an unexported helper only it calls
+			for _, g := range w.familyOf(f) {
+				if len(callsIn(g, pkOCSP+".getOIDFromHashAlgorithm")) >= 1 || usesGlobal(g, "hashOIDs") {
+					ok = true
+				}
+			}
+		}
 		c.Check(ok, "R-TABLE", nm, "hash OID taken from the shared hashOIDs table", "-", "")
 	}
 	if f := w.Fn(pkOCSP + ".ParseRequest"); f != nil {
